@@ -90,6 +90,12 @@ def make_value(tag, content):
         return Null()
     if tag == vber.T_OID:
         return OID(val)
+    if tag == vber.T_TICKS and val % 2 == 1:
+        # callers build TimeTicks from a timedelta as often as from a number (a fixed function of the value, so that a
+        # replay file reproduces it)
+        from datetime import timedelta
+
+        return _CTORS[tag](timedelta(milliseconds=10 * val))
     return _CTORS[tag](val)
 
 
